@@ -4,6 +4,7 @@ import IRModel.Lemmas.WrapC07
 import IRModel.Lemmas.WrapC03
 import IRModel.Lemmas.WrapC08
 import IRModel.Lemmas.WrapC06
+import IRModel.Lemmas.WrapC04
 /-!
 # Wrapper-level theorems (per-protocol `encode()` / `decode()` bodies inside the model)
 
@@ -94,6 +95,24 @@ theorem C06_wrapper (t : Tables) (w : Wrapper) (tol : Match.Tol) (htol : tol.ok)
       ∀ r ∈ runInputs t w { last := none, tol := tol } fs,
         ∃ c, r = .ok c ∧ ∀ ep ∈ t.encodeParams, c.get (Props.C01.viewKey ep.1) = some (u ep.1).toNat :=
   C06_wrapper_spec t w tol htol hw h1 h3 h6 h7 h8 u hu hr rc hrc
+
+/-- **C04 at wrapper level, accept half**, from the kernel-checked obligations `wfAll`, `wfTol` (engine, at tolerance
+    `tol`) and `c01OK` (wrapper): for every parameter assignment in range, every perturbation of the first frame of
+    `encode()` in which each lead-in duration, data duration and the lead-out mark moves by at most a quarter of the
+    tolerance (the trailing gap too, or absorbing the difference where the frame period is fixed) decodes on a decoder
+    without history to a code reporting exactly those parameters. -/
+theorem C04_wrapper (t : Tables) (w : Wrapper) (tol : Match.Tol) (htol : tol.ok) (hw : wfAll t tol = true)
+    (hwt : IRModel.Engine.wfTol t tol = true) (hok : c01OK t w = true) (u : String → Int) (hu : ∀ n, 0 ≤ u n)
+    (hr : ∀ ep ∈ t.encodeParams, u ep.1 ≤ ep.2.2) :
+    ∃ mo x idx, t.leadOut = [mo, x] ∧ firstFrame t w u = .ok (IRModel.Engine.frameA t mo x idx) ∧
+      ∀ (li' sy' : List Int) (mo' g' : Int),
+        IRModel.Engine.Pw (IRModel.Engine.Q tol) li' t.leadIn →
+        IRModel.Engine.Pw (IRModel.Engine.Q tol) sy' (IRModel.Engine.symTimings t.bursts idx) → IRModel.Engine.Q tol mo' mo →
+        ((x < 0 ∧ IRModel.Engine.Q tol g' x) ∨ (x > 0 ∧ g' = Py.sumAbs (li' ++ sy' ++ [mo']) - x ∧ g' < 0)) →
+        ∃ c, (decodeP t w { last := none, tol := tol } (li' ++ sy' ++ [mo', g'])).result = .ok c ∧
+          ∀ ep ∈ t.encodeParams, c.get (Props.C01.viewKey ep.1) = some (u ep.1).toNat := by
+  obtain ⟨p, hS⟩ := c01OK_spec t w hok
+  exact C04_wrapper_spec t w tol htol hw hwt p hS u hu hr
 
 /-- non-vacuity: a two-field toy protocol (pulse distance, 8-bit function + its complement, `decode()` re-checks the
     complement) meets both obligations -/
